@@ -12,18 +12,18 @@ for path in sys.argv[1:]:
         fam = v["key"].split(":")[0]
         if v["property"] == "C16" and all("finding N2" in c for c in v["clauses"]):
             what = "N2 one-ulp bump: two float segments meeting in a common end point (right end of one = left end of the other) are split next to it at two different points (DESIGN.md 7): " + "; ".join(v["clauses"])
-            out[(v["property"], v["key"])] = {"status": "known", "property": "C16", "key": v["key"], "what": what}
+            out[(v["property"], v["key"])] = {"status": "known", "property": "C16", "key": v["key"], "what": what, "clauses": v["clauses"]}
             continue
         if v["property"] == "C16" and fam == "steepfloat" and all(c == "C16 segments-divided-at-different-points (f32)" for c in v["clauses"]):
             what = ("N2 one-ulp bump in f32 (bump family): the crossing of a steep segment just below its upper left end rounds to the x of that end, "
                     "divide_segment bumps it for the steep segment only, so the two segments are divided at different points (DESIGN.md 7)")
-            out[(v["property"], v["key"])] = {"status": "known", "property": "C16", "key": v["key"], "what": what}
+            out[(v["property"], v["key"])] = {"status": "known", "property": "C16", "key": v["key"], "what": what, "clauses": v["clauses"]}
             continue
         if v["property"] == "C10" and fam == "fan":
             what = ("N3 single precision: two edges leaving a shared vertex that are collinear to within 1e-7 relative are treated as overlapping by the f32 "
                     "instantiation (the f32 cross product rounds to zero), so the f32 result differs from the f64 result although every coordinate is exactly "
                     "representable (DESIGN.md 7): " + "; ".join(v["clauses"]))
-            out[(v["property"], v["key"])] = {"status": "known", "property": "C10", "key": v["key"], "what": what}
+            out[(v["property"], v["key"])] = {"status": "known", "property": "C10", "key": v["key"], "what": what, "clauses": v["clauses"]}
             continue
         if fam not in ("L2i", "L2s", "L2i21"):
             print("NOT ELIGIBLE:", v["key"], v["clauses"], file=sys.stderr)
@@ -31,6 +31,6 @@ for path in sys.argv[1:]:
         case = v["case"]
         root = "N1/N2 inexact-degenerate input (DESIGN.md 7)"
         what = f"{root}: {fam} A={json.dumps(case.get('A'))} B={json.dumps(case.get('B'))}: " + "; ".join(v["clauses"])
-        out[(v["property"], v["key"])] = {"status": "known", "property": v["property"], "key": v["key"], "what": what}
+        out[(v["property"], v["key"])] = {"status": "known", "property": v["property"], "key": v["key"], "what": what, "clauses": v["clauses"]}
 for k in sorted(out):
     print(json.dumps(out[k]))
